@@ -49,6 +49,7 @@ Definition first_after (z : zone) (u prev_s : Z) : option Z :=
 Inductive res := Fire (ns : Z) | Expired | ModelError.
 
 Definition max_nanos : Z := Params.max_int64.
+Definition min_nanos : Z := - Params.max_int64 - 1.   (* math.MinInt64 *)
 Definition nanos : Z := 1000000000.
 Definition zone_fuel : positive := 137438953472.   (* 2^37 > seconds between 1970 and 3941 *)
 
